@@ -1369,7 +1369,16 @@ class CodeGenerator(NodeVisitor):
         self.buffer(filter_frame)
         self.blockvisit(node.body, filter_frame)
         self.start_write(frame, node)
+        # The filtered block is output like any other value: a filter may
+        # return a plain string that still needs escaping.
+        if frame.eval_ctx.volatile:
+            self.write("(escape if context.eval_ctx.autoescape else str)(")
+        elif frame.eval_ctx.autoescape:
+            self.write("escape(")
+        else:
+            self.write("str(")
         self.visit_Filter(node.filter, filter_frame)
+        self.write(")")
         self.end_write(frame)
         self.leave_frame(filter_frame)
 
